@@ -24,7 +24,7 @@ import (
 type CLICase struct {
 	A      []string `json:"a"`
 	B      []string `json:"b"`
-	Source string   `json:"source"` // hcl | hcldir
+	Source string   `json:"source"` // hcl | hcldir | hcldir_schema_twice
 }
 
 func tableRows(w *clih.Work, tab string) ([]string, error) {
@@ -68,11 +68,21 @@ func evalCLI(c CLICase) (problems []string, skipped string) {
 	}
 	to := "file://" + w.Path("b.hcl")
 	os.WriteFile(w.Path("b.hcl"), []byte(B.HCL()), 0o644)
-	if c.Source == "hcldir" {
+	if c.Source == "hcldir" || c.Source == "hcldir_schema_twice" {
 		if err := c01.WriteHCLDir(w.Path("bdir"), B.HCL()); err != nil {
 			return []string{"harness: " + err.Error()}, ""
 		}
 		to = "file://" + w.Path("bdir")
+		if c.Source == "hcldir_schema_twice" {
+			// every file of the directory declares its schema (one file per table, each self-contained):
+			// whether atlas takes or refuses such a directory, the rows stay.
+			f, err := os.OpenFile(w.Path("bdir", "z_rest.hcl"), os.O_APPEND|os.O_CREATE|os.O_WRONLY, 0o644)
+			if err != nil {
+				return []string{"harness: " + err.Error()}, ""
+			}
+			f.WriteString("schema \"main\" {\n}\n")
+			f.Close()
+		}
 	}
 	ap := w.Run(nil, "schema", "apply", "--url", w.URL("a.sqlite"), "--to", to, "--auto-approve")
 	if ap.Exit != 0 {
@@ -106,7 +116,7 @@ func cliCases(tier string) []CLICase {
 	u1 := squ.Universe(1)
 	var cs []CLICase
 	for i, s := range u1 {
-		for _, src := range []string{"hcl", "hcldir"} {
+		for _, src := range []string{"hcl", "hcldir", "hcldir_schema_twice"} {
 			cs = append(cs, CLICase{nil, s.Names(), src}, CLICase{s.Names(), nil, src})
 			if tier == "thorough" && i+1 < len(u1) {
 				cs = append(cs, CLICase{s.Names(), u1[i+1].Names(), src}, CLICase{u1[i+1].Names(), s.Names(), src})
